@@ -8,9 +8,9 @@ meta = {"id": name, "property": prop, "summary": summary, "needs_to_manifest": n
         "author": "independent sub-agent given only the property text and a scratch worktree of /repo",
         "confirmed": {"test_suite_with_change": "37 passed (3 pre-existing collection errors)", "demo_on_changed_code": "exit 1",
                       "demo_on_unchanged_code": "exit 0"},
-        "what_was_run": [f"cd /tmp/seed_{prop} && /venv/bin/python -m pytest -q -p no:cacheprovider --timeout=900 --continue-on-collection-errors",
-                         f"SYMPY_GROUND_TYPES=python PYTHONPATH=<shims> /venv/bin/python demo.py /tmp/seed_{prop}   (and /repo)",
-                         f"VERIF_REPO=/tmp/seed_{prop} ./check {prop} quick   (equivalent to git -C /repo apply patch.diff; ./check {prop} quick; git -C /repo checkout -- .)"],
+        "what_was_run": [f"cd /tmp/seed_{name} && /venv/bin/python -m pytest -q -p no:cacheprovider --timeout=900 --continue-on-collection-errors",
+                         f"SYMPY_GROUND_TYPES=python PYTHONPATH=<shims> /venv/bin/python demo.py /tmp/seed_{name}   (and /repo)",
+                         f"VERIF_REPO=/tmp/seed_{name} ./check {prop} quick   (equivalent to git -C /repo apply patch.diff; ./check {prop} quick; git -C /repo checkout -- .)"],
         "detected_by_check": caught}
 (d / "meta.json").write_text(json.dumps(meta, indent=1))
 print("wrote", d / "meta.json")
